@@ -62,6 +62,8 @@ for s in sites:
         e=G("grammar","debug_assert only; the three tuple-declaration productions of lang.lalrpop take SimpleSymbol items, whose action sets `init: None`",guard_in={"file":"parser/src/lang.lalrpop","text":"SimpleSymbol : Symbol = { <name:IDENTIFIER> <dims:ParseArrayAcc*> => Symbol { name, is_array: dims, init: None, }, }"})
     elif f.endswith("statement_builders.rs"):
         e=D("C01_split_string_never_panics","Model.Pipeline.split_string mirrors the loop (fix c447a1c) with split_at and the usize decrement as Panic sites; for every valid UTF-8 string neither fires and the fuel suffices")
+    elif f.endswith("control_flow_graph/cfg.rs") and fn=="start_after":
+        e=G("default budget","verification hook in `#[cfg(circomspect_verif)] mod verif_budget`: not part of the shipped binary (the checks build with that cfg). The `expect` is evaluated only when `exhausted(..)` holds, i.e. after a harness lowered a pass budget (default usize::MAX, which `passes_done` cannot reach); `Instant::checked_sub(11 s)` then fails only on a machine whose monotonic clock is younger than 11 s",guard_text="if exhausted(budget, passes_done) {",guard_in={"file":f,"text":"pub(super) static VALUE_PASSES: AtomicUsize = AtomicUsize::new(usize::MAX);"})
     elif f.endswith("control_flow_graph/cfg.rs"):
         KEEP=" The theorem is about the graph as lifted; into_ssa only prepends phi statements and renames (C14_phis_at_head), the block vector and the edge sets are untouched (observed by the C12 correspondence, which dumps the graph after into_ssa)"
         if fn.endswith("get_dominators"): e=D("C15_dominators_exact","members of a dominator set are nodes on a path of the graph, hence valid block indices")
